@@ -389,6 +389,7 @@ def run(ctx):
     # the joblib side of healing: a failed call must leave no state that disables the next abort / re-arming
     ctx.run("C04.RESET", "R-RESET", par.c04_reset)
     ctx.run("C04.CLEANUP", "R-ORDER", par.c04_cleanup)
+    ctx.run("C04.CALLBACK-TOTAL", "R-ORDER", par.c04_callback_total)
 
 
 # ---------------------------------------------------------------------------
